@@ -194,9 +194,16 @@ func BuildCfgRouter(tb *Table, cfg RouterCfg) *rux.Router {
 	r := BuildRouter(tb, cfg.Options()...)
 	if cfg.CustomNF {
 		r.NotFound(customNotFound)
+	} else if len(tb.Routes)%2 == 0 {
+		// custom handlers set and taken back again: an empty list means the built-in handler
+		r.NotFound(customNotFound)
+		r.NotFound()
 	}
 	if cfg.CustomNA {
 		r.NotAllowed(customNotAllowed)
+	} else if len(tb.Routes)%3 == 0 {
+		r.NotAllowed(customNotAllowed)
+		r.NotAllowed([]rux.HandlerFunc{}...)
 	}
 	return r
 }
